@@ -48,14 +48,26 @@ func Reconcile(asset string, senders []Sender, receivers []Receiver) ([]Posting,
 
 		// Ugly workaround
 		if receiver.Name == KEPT_ADDR {
-			sender, empty := popStack(&senders)
-			if !empty {
-				var newMon big.Int
-				newMon.Sub(sender.Monetary, receiver.Monetary)
-				senders = append(senders, Sender{
-					Name:     sender.Name,
-					Monetary: &newMon,
-				})
+			// the kept amount is withheld from the next senders in line
+			// (as many of them as needed)
+			kept := new(big.Int).Set(receiver.Monetary)
+			for kept.Sign() == 1 {
+				sender, empty := popStack(&senders)
+				if empty {
+					break
+				}
+
+				if sender.Monetary.Cmp(kept) == 1 {
+					var newMon big.Int
+					newMon.Sub(sender.Monetary, kept)
+					senders = append(senders, Sender{
+						Name:     sender.Name,
+						Monetary: &newMon,
+					})
+					kept.SetInt64(0)
+				} else {
+					kept.Sub(kept, sender.Monetary)
+				}
 			}
 			continue
 		}
